@@ -119,19 +119,20 @@ type Sample struct {
 
 // Summary is what one shard reports.
 type Summary struct {
-	Shard        int            `json:"shard"`
-	Evaluations  int            `json:"evaluations"` // executions compared against the oracle
-	Cases        int            `json:"cases"`       // generated cases
-	Nontrivial   int            `json:"distinct_nontrivial"`
-	Discarded    int            `json:"discarded_budget"`
-	Excluded     map[string]int `json:"excluded_known"`
-	Tags         map[string]int `json:"tags"`
-	Samples      []Sample       `json:"samples"`
-	Violations   []*Violation   `json:"violations"`
-	WitnessFails []string       `json:"witness_fails"` // witness/replay files that still fail (tolerance off)
-	WitnessRuns  []string       `json:"witness_runs"`
-	GroupsRun    int            `json:"groups_run"`
-	Notes        []string       `json:"notes,omitempty"`
+	Shard        int               `json:"shard"`
+	Evaluations  int               `json:"evaluations"` // executions compared against the oracle
+	Cases        int               `json:"cases"`       // generated cases
+	Nontrivial   int               `json:"distinct_nontrivial"`
+	Discarded    int               `json:"discarded_budget"`
+	Excluded     map[string]int    `json:"excluded_known"`
+	Tags         map[string]int    `json:"tags"`
+	Samples      []Sample          `json:"samples"`
+	Violations   []*Violation      `json:"violations"`
+	WitnessFails []string          `json:"witness_fails"` // witness/replay files that still fail (tolerance off)
+	WitnessRuns  []string          `json:"witness_runs"`
+	WitnessKinds map[string]string `json:"witness_kinds,omitempty"` // failing witness -> violation kind
+	GroupsRun    int               `json:"groups_run"`
+	Notes        []string          `json:"notes,omitempty"`
 }
 
 // Acc accumulates the results of a shard.
